@@ -71,8 +71,24 @@ class Module:
         return c
 
     def methods(self, clsname):
+        """The methods of a class as the analyses should read them: tables and helpers that a refactoring introduced are expanded
+        (sa/tablefold.py, sa/inline.py), so that the class-level analyses (memo discipline, effects) see the statements where they were."""
         c = self.cls(clsname)
-        return [st for st in c.body if isinstance(st, (ast.FunctionDef, ast.AsyncFunctionDef))]
+        return [self.expanded(f"{clsname}.{st.name}", st) for st in c.body if isinstance(st, (ast.FunctionDef, ast.AsyncFunctionDef))]
+
+    def expanded(self, qual, fn):
+        if self.rel.endswith(".pyx"):
+            return fn
+        cache = self.__dict__.setdefault("_expanded", {})
+        if qual not in cache:
+            from .inline import inline_new_helpers
+            from .tablefold import fold_tables
+            f2, _ = fold_tables(self, qual, fn)
+            f2, exp = inline_new_helpers(self, qual, f2)
+            if exp:
+                f2, _ = fold_tables(self, qual, f2)
+            cache[qual] = f2
+        return cache[qual]
 
     def is_property(self, fn) -> bool:
         for d in fn.decorator_list:
